@@ -1125,7 +1125,7 @@ func ctlSharedKey(c *ctx, file func() string) error {
 		if err := h.addDevice(a, uint16(r.Intn(4)), uint16(r.Intn(9))); err != nil {
 			return err
 		}
-		if err := h.addDevice(b, uint16(r.Intn(4)), uint16(r.Intn(9))); err != nil {
+		if err := h.addDevice(b, uint16(r.Intn(4)), uint16(100+r.Intn(9))); err != nil {
 			return err
 		}
 		h.g.mu.Lock()
@@ -1133,6 +1133,11 @@ func ctlSharedKey(c *ctx, file func() string) error {
 		h.g.mu.Unlock()
 		fc := 4
 		prevState := ""
+		// every second history: the encoders of an uplink's answers are held before their counter operation
+		// until the handler of the next uplink has read its device copies (then they go first)
+		overlap := s%2 == 1
+		heldGids := map[int]bool{}
+		var allEmitted []string
 		for ev := 0; ev < 6+r.Intn(6) && !h.failed; ev++ {
 			d := []*simDev{a, b}[r.Intn(2)]
 			switch r.Intn(4) {
@@ -1158,12 +1163,62 @@ func ctlSharedKey(c *ctx, file func() string) error {
 				if err := h.inject(fmt.Sprintf("uplink fcnt=%d", fc), fr, nil, 0); err != nil {
 					return err
 				}
+				if overlap {
+					// the new handler reads the devices; then the encoders held from the previous uplink run
+					for _, a := range h.g.parked() {
+						if a.op == "GetDeviceByDevAddr" {
+							if err := h.stepArrival(a, false); err != nil {
+								return err
+							}
+							break
+						}
+					}
+					for i := 0; i < 60 && !h.failed && len(heldGids) > 0; i++ {
+						var next *arrival
+						for _, a := range h.g.parked() {
+							if heldGids[a.gid] {
+								next = a
+								break
+							}
+						}
+						if next == nil {
+							break
+						}
+						if err := h.stepArrival(next, false); err != nil {
+							return err
+						}
+					}
+					heldGids = map[int]bool{}
+					// everything else, except that this uplink's encoders stop before their counter operation
+					for i := 0; i < 200 && !h.failed; i++ {
+						var next *arrival
+						for _, a := range h.g.parked() {
+							if a.op == "NextFCntDn" {
+								heldGids[a.gid] = true
+								continue
+							}
+							next = a
+							break
+						}
+						if next == nil {
+							break
+						}
+						if err := h.stepArrival(next, false); err != nil {
+							return err
+						}
+					}
+					c.res.Count("scenario=shared-key-overlap")
+					continue
+				}
 				if err := h.drain(); err != nil {
 					return err
 				}
 				after, err := h.compare(fmt.Sprintf("uplink fcnt=%d (two devices authenticate)", fc))
 				if err != nil {
 					return err
+				}
+				if after != "" {
+					allEmitted = append(allEmitted, stateSections(after)["emitted"])
 				}
 				if after != "" {
 					prevState = after
@@ -1186,7 +1241,37 @@ func ctlSharedKey(c *ctx, file func() string) error {
 				}
 			}
 		}
-		c.res.Class(fmt.Sprintf("sharedkey relaxed=%v/%v", a.relaxed, b.relaxed))
+		if overlap && !h.failed {
+			if err := h.drain(); err != nil {
+				return err
+			}
+			st, err := h.compare("shared-key history with overlapping encoders, quiescent")
+			if err != nil {
+				return err
+			}
+			if st != "" {
+				allEmitted = append(allEmitted, stateSections(st)["emitted"])
+			}
+		}
+		if !h.failed && c.prop == "C07" {
+			// the two devices' counters live in disjoint ranges (below / from 100): no counter twice
+			seen := map[int]string{}
+			for _, em := range allEmitted {
+				ds, err := h.decodeDowns(a, em)
+				if err != nil {
+					return err
+				}
+				for _, x := range ds {
+					if prev, dup := seen[x.fcnt]; dup && prev != x.raw {
+						h.c.res.Add(hx.Finding{Kind: "propfail", Engine: "pipectl", Signature: "twin-downlink-fcnt-reused", Case: append([]pipeEvent{}, h.trace...), Impl: x.raw, Spec: prev,
+							Note: fmt.Sprintf("C07: downlink counter %d is used for two different frames of one device (two devices share address and network session key; encoders overlapping with the next uplink's handler=%v)", x.fcnt, overlap)})
+						h.failed = true
+					}
+					seen[x.fcnt] = x.raw
+				}
+			}
+		}
+		c.res.Class(fmt.Sprintf("sharedkey relaxed=%v/%v overlap=%v", a.relaxed, b.relaxed, overlap))
 		c.res.Count("scenario=shared-key")
 		if s%5 == 0 {
 			c.res.Sample(h.trace[len(h.trace)-min(len(h.trace), 5):])
